@@ -13,7 +13,7 @@
 use super::*;
 use crate::string_dict::StringDict;
 
-const ALPHABET: [char; 14] = ['a', '1', ' ', '\n', '\r', '`', '$', '{', '}', '/', '"', '\\', '\u{e9}', '\u{2028}'];
+const ALPHABET: [char; 15] = ['a', '1', ' ', '\n', '\r', '`', '$', '{', '}', '/', '"', '\\', '\u{e9}', '\u{2028}', '\u{1F600}'];
 
 fn reference(src: &str, byte_pos: usize) -> (u32, u32) {
     let mut line = 1u32;
